@@ -93,10 +93,12 @@ class DeepONet(Model):
         if iteration_num != function_set.current_iteration_num:
             function_set.current_iteration_num = iteration_num
             function_set.sample_params(device=device)
-            discrete_fn_batch = self.branch._discretize_function_set(
-                function_set, device=device
-            )
-            self.branch(discrete_fn_batch)
+        # the branch may hold the output for other functions (another function
+        # set, a fixed input) or for older weights: always evaluate it
+        discrete_fn_batch = self.branch._discretize_function_set(
+            function_set, device=device
+        )
+        self.branch(discrete_fn_batch)
 
     def fix_branch_input(self, function, device="cpu"):
         """Fixes the branch net for a given function. this function will then be used
